@@ -670,7 +670,7 @@ func c05(c *Ctx) {
 		}(k)
 	}
 	wg.Wait()
-	nAsm, nRej, nDec, nUndec, nCmpBad, nGnu := 0, 0, 0, 0, 0, 0
+	nAsm, nRej, nDec, nUndec, nCmpBad, nGnu, nZeroStore := 0, 0, 0, 0, 0, 0, 0
 	var renderRows []string
 	seenOp := map[string]bool{}
 	for _, in := range insts {
@@ -691,6 +691,20 @@ func c05(c *Ctx) {
 		nAsm++
 		if len(in.Bytes) == 0 {
 			continue
+		}
+		// EVEX.z with a memory destination is an undefined instruction (#UD)
+		if b := in.Bytes; len(b) >= 6 && b[0] == 0x62 && b[3]&0x80 != 0 && b[5]>>6 != 3 {
+			memOut := false
+			for _, out := range in.I.Outputs {
+				if _, ok := out.(operand.Mem); ok {
+					memOut = true
+				}
+			}
+			if memOut {
+				nZeroStore++
+				o.Plan.GoViolations = append(o.Plan.GoViolations, GoViolation{Key: "undefined-encoding:zeroing-masked-store:" + in.I.Opcode, Desc: fmt.Sprintf("case %d: `%s` assembles to % x, an EVEX encoding with z=1 and a memory destination: zeroing-masking is not defined for stores and the processor raises #UD (the C04 hardware run observes SIGILL for these forms)", idx, line, in.Bytes), Replay: map[string]any{"instruction": line, "bytes": hex.EncodeToString(in.Bytes)}})
+				continue
+			}
 		}
 		var dd decoded
 		if b0 := in.Bytes[0]; b0 == 0xc4 || b0 == 0xc5 || b0 == 0x62 {
@@ -738,6 +752,7 @@ func c05(c *Ctx) {
 	o.Plan.EnvValidation["not_decodable"] = nUndec
 	o.Plan.EnvValidation["decoded_with_gnu_objdump_(VEX/EVEX)"] = nGnu
 	o.Plan.EnvValidation["operand_differences"] = nCmpBad
+	o.Plan.EnvValidation["zeroing_masked_stores"] = nZeroStore
 	o.Plan.Stats["distinct_operands_rendered"] = len(renderRows)
 }
 
